@@ -19,6 +19,7 @@
  * mode=setpos   BYSETPOS together with SHIFT (MONTHLY and YEARLY rules with several candidates per period), see
  *               shift_setpos(); options nmax=10 (largest |N|), ytill=2023
  *   options: nlist=all|quick (all: -366..366; quick: -8..8, +-31, +-258..262, +-300, +-366), nocount=1
+ * mode=timed    SHIFT on rules with a time of day and a BYHOUR/BYMINUTE/BYSECOND list, see shift_timed()
  *
  * oracle (no more than README + property text):
  *   SHIFT=N      image = date + N days.
@@ -1141,6 +1142,204 @@ shift_setpos(const struct spec_s *sp, int f, int ip, int ytill)
 	}
 }
 
+/* family timed: a rule with a TIME of day and a list of times (BYHOUR / BYMINUTE / BYSECOND).  SHIFT moves dates, the
+ * lists give every date its times of day, so the stream of the timed rule must be the days of the same rule read as an
+ * all-day rule (DTSTART;VALUE=DATE, no time lists -- that stream is what the other families judge), each day exactly
+ * once with each listed time, strictly increasing.  In particular a business-day shift that puts the dates of adjacent
+ * periods on one day (Sat 2020-02-29 and Sun 2020-03-01 -> Mon 03-02) still delivers that day once.  With COUNT=c the
+ * stream is exactly the first c instants of the unlimited one.
+ * DTSTART 2020-01-01 (T09:00:00Z, the earliest listed time), judged to the end of 2030; shifts of at most 5 days. */
+struct tfam_s {
+	const char *name;
+	const char *parts;
+	int monthly;
+};
+static const struct tfam_s tfam[] = {
+	{"m-1+last", "BYMONTHDAY=1,-1", 1},
+	{"m-1+31", "BYMONTHDAY=1,31", 1},
+	{"m-weekend-first+last", "BYDAY=SA,SU;BYSETPOS=1,-1", 1},
+	{"m-1+2+last", "BYMONTHDAY=1,2,-1", 1},
+	{"y-year-ends", "BYMONTH=1,12;BYMONTHDAY=1,31", 0},
+	{"y-dec31+jan1+jan2", "BYMONTH=1,12;BYMONTHDAY=1,2,31", 0},
+};
+#define NTFAM	((int)(sizeof(tfam) / sizeof(*tfam)))
+
+struct tlist_s {
+	const char *name;
+	const char *parts;
+	int n;
+	int sod[4];	/* seconds of the day, ascending */
+};
+static const struct tlist_s tlist[] = {
+	{"h2", ";BYHOUR=9,17", 2, {9 * 3600, 17 * 3600}},
+	{"h2m2", ";BYHOUR=9,17;BYMINUTE=0,30", 4, {9 * 3600, 9 * 3600 + 1800, 17 * 3600, 17 * 3600 + 1800}},
+	{"m2", ";BYMINUTE=0,30", 2, {9 * 3600, 9 * 3600 + 1800}},
+	{"s2", ";BYSECOND=0,30", 2, {9 * 3600, 9 * 3600 + 30}},
+	{"h1", ";BYHOUR=9", 1, {9 * 3600}},
+	{"none", "", 1, {9 * 3600}},
+};
+#define NTLIST	((int)(sizeof(tlist) / sizeof(*tlist)))
+
+#define TMAX	12000
+/* occurrences of a timed rule as (day number, second of the day); -1 no task, -2 an occurrence that is no time of the calendar */
+static int
+run_timed(long *zd, int *sod, int nmax, const char *lines, long zstop, bool *ended)
+{
+	char text[1024];
+	echs_task_t t;
+	int n = 0;
+
+	ical_wrap(text, sizeof(text), "c17@verif", lines);
+	*ended = false;
+	if ((t = ical_task1(text)) == NULL) {
+		return -1;
+	} else if (t->strm == NULL) {
+		free_echs_task(t);
+		return -1;
+	}
+	while (n < nmax) {
+		const echs_event_t e = echs_evstrm_pop(t->strm);
+		const echs_instant_t i = e.from;
+
+		if (echs_nul_instant_p(i)) {
+			*ended = true;
+			break;
+		}
+		if (echs_instant_scale(i) != SCALE_GREGORIAN || echs_instant_all_day_p(i) || i.H > 23 || i.M > 59 || i.S > 59 ||
+		    i.m < 1 || i.m > 12 || i.d < 1 || (int)i.d > cvl_ndim((int)i.y, (int)i.m)) {
+			bad_inst = i;
+			n = -2;
+			break;
+		}
+		zd[n] = zof(i);
+		sod[n] = (int)i.H * 3600 + (int)i.M * 60 + (int)i.S;
+		if (zd[n] > zstop) {
+			break;
+		}
+		n++;
+	}
+	free_echs_task(t);
+	return n;
+}
+
+static const char*
+tstr(char *buf, size_t bsz, long z, int sod)
+{
+	const struct cvl_ymd_s c = cvl_civil(z);
+	static const char *wd[] = {"", "Mo", "Tu", "We", "Th", "Fr", "Sa", "Su"};
+	snprintf(buf, bsz, "%04d-%02d-%02d(%s)T%02d:%02d:%02d", c.y, c.m, c.d, wd[cvl_wday(z)], sod / 3600, sod / 60 % 60, sod % 60);
+	return buf;
+}
+
+static void
+shift_timed(const struct spec_s *sp, int f, int il, int cmax)
+{
+	static long days[2000], zd[TMAX], czd[80];
+	static int sod[TMAX], csod[80];
+	const struct tfam_s *F = &tfam[f];
+	const struct tlist_s *L = &tlist[il];
+	const long Z1 = cvl_days(2030, 12, 31);
+	char lines[320], sig[200], tail[100], b1[64], b2[64];
+	bool ended;
+	int nd, no;
+	/* where in the stream a difference sits: a batch of the cache delivers 63 occurrences, the 64th is kept back as
+	 * the anchor of the next batch, so occurrence 63k (counted from 0) is the first of a batch */
+#define TPOS(j)	((j) > 0 && (j) % 63 == 0 ? "at-refill" : "mid-cache")
+
+	snprintf(tail, sizeof(tail), "%s/%s/%s/%s", F->monthly ? "monthly" : "yearly", fgroup(sp), nclass(sp), L->name);
+	/* the days: the rule without time lists on an all-day DTSTART */
+	snprintf(lines, sizeof(lines), "DTSTART;VALUE=DATE:20200101\nRRULE:FREQ=%s;%s;SHIFT=%s\n", F->monthly ? "MONTHLY" : "YEARLY", F->parts, sp->txt);
+	nd = run_stream(days, 2000, lines, Z1, &ended);
+	/* the timed rule */
+	snprintf(lines, sizeof(lines), "DTSTART:20200101T090000Z\nRRULE:FREQ=%s;%s%s;SHIFT=%s\n", F->monthly ? "MONTHLY" : "YEARLY", F->parts, L->parts, sp->txt);
+	vd_desc("%s (days from the same rule on DTSTART;VALUE=DATE:20200101 without the time lists), to 2030-12-31; then with COUNT=1..%d", lines, cmax);
+	for (char *q = vd_sh->desc; *q; q++) if (*q == '\n') *q = ' ';
+	no = run_timed(zd, sod, TMAX, lines, Z1, &ended);
+	vd_sh->evals++;
+	if (nd < 0 || no == -1) {
+		snprintf(sig, sizeof(sig), "timed-no-stream/%s", tail);
+		vd_viol(sig, "the parser gave no recurring task for the %s rule", nd < 0 ? "all-day" : "timed");
+		return;
+	}
+	if (no == -2) {
+		snprintf(sig, sizeof(sig), "timed-not-a-time/%s", tail);
+		vd_viol(sig, "an occurrence is not a time of day on a date of the calendar: %u-%02u-%02u H=%u M=%u S=%u", bad_inst.y, bad_inst.m, bad_inst.d, bad_inst.H, bad_inst.M, bad_inst.S);
+		return;
+	}
+	{
+		bool bad = false;
+		/* strictly increasing */
+		for (int j = 1; j < no; j++) {
+			if (zd[j] < zd[j - 1] || (zd[j] == zd[j - 1] && sod[j] <= sod[j - 1])) {
+				snprintf(sig, sizeof(sig), "timed-%s/%s/%s", zd[j] == zd[j - 1] && sod[j] == sod[j - 1] ? "twice" : "order", tail, TPOS(j));
+				vd_viol(sig, "occurrence %d (%s) is not after occurrence %d (%s)", j + 1, tstr(b1, sizeof(b1), zd[j], sod[j]), j, tstr(b2, sizeof(b2), zd[j - 1], sod[j - 1]));
+				bad = true;
+				break;
+			}
+		}
+		/* day by day: the days of the all-day rule, each with exactly the listed times */
+		for (int i = 0, j = 0; !bad && (i < nd || j < no);) {
+			if (i < nd && (j >= no || days[i] < zd[j])) {
+				snprintf(sig, sizeof(sig), "timed-day-missing/%s/%s", tail, TPOS(j));
+				vd_viol(sig, "the all-day rule has %s, the timed rule has no occurrence on that day (its occurrence %d is %s)", zstr(b1, sizeof(b1), days[i]), j + 1,
+					j < no ? tstr(b2, sizeof(b2), zd[j], sod[j]) : "the end of the stream");
+				bad = true;
+				break;
+			} else if (i >= nd || zd[j] < days[i]) {
+				snprintf(sig, sizeof(sig), "timed-day-extra/%s/%s", tail, TPOS(j));
+				vd_viol(sig, "occurrence %d of the timed rule is %s, the all-day rule does not have that day", j + 1, tstr(b1, sizeof(b1), zd[j], sod[j]));
+				bad = true;
+				break;
+			}
+			for (int q = 0; q < L->n; q++, j++) {
+				if (j >= no || zd[j] != days[i] || sod[j] != L->sod[q]) {
+					snprintf(sig, sizeof(sig), "timed-times-of-day/%s/%s", tail, TPOS(j));
+					vd_viol(sig, "%s must occur (time %d of %d of that day) as occurrence %d, which is %s", tstr(b1, sizeof(b1), days[i], L->sod[q]), q + 1, L->n, j + 1,
+						j < no ? tstr(b2, sizeof(b2), zd[j], sod[j]) : "the end of the stream");
+					bad = true;
+					break;
+				}
+			}
+			if (!bad && j < no && zd[j] == days[i]) {
+				snprintf(sig, sizeof(sig), "timed-times-of-day/%s/%s", tail, TPOS(j));
+				vd_viol(sig, "%s occurs as occurrence %d, the day already has its %d time(s)", tstr(b1, sizeof(b1), zd[j], sod[j]), j + 1, L->n);
+				bad = true;
+			}
+			i++;
+		}
+		if (bad) {
+			/* the unlimited stream is the reference of the COUNT clause */
+			return;
+		}
+	}
+	/* COUNT=c: the first c of the unlimited stream, then the end */
+	for (int c = 1; c <= cmax && c + 1 < no; c++) {
+		int nc;
+		snprintf(lines, sizeof(lines), "DTSTART:20200101T090000Z\nRRULE:FREQ=%s;%s%s;SHIFT=%s;COUNT=%d\n", F->monthly ? "MONTHLY" : "YEARLY", F->parts, L->parts, sp->txt, c);
+		nc = run_timed(czd, csod, 80, lines, cvl_days(2200, 1, 1), &ended);
+		vd_sh->evals++;
+		if (nc < 0) {
+			snprintf(sig, sizeof(sig), "timed-count-%s/%s", nc == -1 ? "no-stream" : "not-a-time", tail);
+			vd_viol(sig, "COUNT=%d: %s", c, nc == -1 ? "the parser gave no recurring task" : "an occurrence is not a time of day on a date of the calendar");
+			break;
+		}
+		if (nc != c || !ended) {
+			snprintf(sig, sizeof(sig), "timed-count-%s/%s", nc < c ? "short" : "exceeded", tail);
+			vd_viol(sig, "COUNT=%d: the stream has %d%s occurrences", c, nc, ended ? "" : " or more");
+			break;
+		}
+		{
+			int j = 0;
+			while (j < c && czd[j] == zd[j] && csod[j] == sod[j]) j++;
+			if (j < c) {
+				snprintf(sig, sizeof(sig), "timed-count-differs/%s", tail);
+				vd_viol(sig, "COUNT=%d: occurrence %d is %s, without COUNT it is %s", c, j + 1, tstr(b1, sizeof(b1), czd[j], csod[j]), tstr(b2, sizeof(b2), zd[j], sod[j]));
+				break;
+			}
+		}
+	}
+}
+
 static void
 enumerate(void)
 {
@@ -1263,6 +1462,31 @@ enumerate(void)
 					NONTRIVIAL();
 				}
 				if (vd_want_sample()) vd_sample("setpos: %s;BYSETPOS=1|-1|2|-2|1,-1;SHIFT=%s from 2019-01-01, judged to %d-12-31", spfam[f].parts, sp[k].txt, ytill);
+			}
+		}
+	} else if (!strcmp(mode, "timed")) {
+		static const char *specs[] = {"0B", "0B+", "-0B", "0B-", "1B", "-1B", "2B", "-2B", "3B", "-3B", "5B", "-5B", "0", "1", "-1", "2", "-2"};
+		const int cmax = (int)vd_opt_l("cmax", 24);
+
+		for (size_t k = 0; k < sizeof(specs) / sizeof(*specs); k++) {
+			struct spec_s sp = {F_DAY, 0, false, ""};
+			const char *x = specs[k];
+			const size_t xl = strlen(x);
+			snprintf(sp.txt, sizeof(sp.txt), "%s", x);
+			sp.n = atoi(x);
+			sp.negzero = sp.n == 0 && x[0] == '-';
+			sp.form = x[xl - 1] == 'B' ? F_B : x[xl - 1] == '+' ? F_BPLUS : x[xl - 1] == '-' ? F_BMINUS : F_DAY;
+			for (int f = 0; f < NTFAM; f++) {
+				for (int il = 0; il < NTLIST; il++) {
+					if (!vd_next()) continue;
+					vd_shape("shift-timed/%s/%s/%s", tfam[f].monthly ? "monthly" : "yearly", fgroup(&sp), tlist[il].name);
+					shift_timed(&sp, f, il, cmax);
+					/* non-trivial: more than one time of day, and the shift moves something */
+					if (tlist[il].n > 1 && (sp.n != 0 || sp.form != F_DAY)) {
+						NONTRIVIAL();
+					}
+					if (vd_want_sample()) vd_sample("timed: DTSTART:20200101T090000Z FREQ=%s;%s%s;SHIFT=%s to 2030 against its all-day days x listed times; COUNT=1..%d", tfam[f].monthly ? "MONTHLY" : "YEARLY", tfam[f].parts, tlist[il].parts, sp.txt, cmax);
+				}
 			}
 		}
 	} else if (!strcmp(mode, "multi")) {
